@@ -406,11 +406,15 @@ func (ct *ContractTable) loadContractFile(path string) error {
 				case len(fields) == 4 && fields[1] == "method":
 					// typefact method <*pkg.T>.<m> <function key>: the method m of that type IS that function
 					cur.TypeFacts = append(cur.TypeFacts, [2]string{"method", fields[2] + " " + fields[3]})
+				case len(fields) >= 4 && fields[1] == "initcall":
+					// typefact initcall <global> <function key> [<int constant> ...]: the package-level variable
+					// is initialised, by its declaration, with exactly this call
+					cur.TypeFacts = append(cur.TypeFacts, [2]string{"initcall", strings.Join(fields[2:], " ")})
 				case len(fields) == 4 && fields[1] == "implements":
 					// typefact implements <T> <I>: T's method set satisfies interface I
 					cur.TypeFacts = append(cur.TypeFacts, [2]string{"implements", fields[2] + " " + fields[3]})
 				default:
-					return fmt.Errorf("%s:%d: bad typefact clause (known kinds: plainjson T | method T.m key | implements T I)", path, rl.line)
+					return fmt.Errorf("%s:%d: bad typefact clause (known kinds: plainjson T | method T.m key | implements T I | initcall G f consts)", path, rl.line)
 				}
 			case "before":
 				// before <calleeKey> assert [tag] expr
